@@ -1,4 +1,6 @@
 import Cgm.Lemmas.AuditCmd
 import Cgm.Props.C13
 import Cgm.Props.C13b
+import Cgm.Props.C13c
+import Cgm.Props.C13d
 #audit_namespace Cg.C13
